@@ -184,8 +184,9 @@ func zeroforge(a *hx.Args, res *hx.Result) {
 				return proof
 			}
 			proof, proof2 := build(), build()
-			// W = 2^(l2+eps) of the range proofs inside the multiplication proofs (KeyProofView.tla)
-			wbits := uint((n.BitLen()+1)/2) + 256
+			// W = 2^(l2+eps) of the range proofs inside the multiplication proofs (KeyProofView.tla) is taken from the proof itself: the
+			// largest result of all steps has l2+eps+2 bits (real results reach up to 3W), whatever the parameters of the range proof are
+			var results [2][]*gobig.Int
 			for _, name := range []string{"pprime", "qprime"} {
 				pp, pp2, secretPrime := proof.PprimeIsPrimeProof, proof2.PprimeIsPrimeProof, ga
 				if name == "qprime" {
@@ -212,7 +213,7 @@ func zeroforge(a *hx.Args, res *hx.Result) {
 						bit := int(trueExp.Bit(i))
 						walkLeaves(reflect.ValueOf(exp.InterStepsProofs[i].Bproof.MultiplicationProof.RangeProof.Results), "", func(path string, x *gobig.Int) {
 							if !strings.Contains(path, "_hider") {
-								buckets[bit][new(gobig.Int).Rsh(x, wbits).Int64()] = true
+								results[bit] = append(results[bit], x)
 							}
 						})
 					}
@@ -251,6 +252,19 @@ func zeroforge(a *hx.Args, res *hx.Result) {
 						if isFactor(h2, n) {
 							viewLeaks = append(viewLeaks, fmt.Sprintf("%s/%s: %s (bit 0: %d..%d bits, bit 1: %d..%d bits)", name, ename, key, lo[0], hi[0], lo[1], hi[1]))
 						}
+					}
+				}
+			}
+			maxBits := 0
+			for bit := 0; bit <= 1; bit++ {
+				for _, x := range results[bit] {
+					maxBits = max(maxBits, x.BitLen())
+				}
+			}
+			if maxBits > 2 {
+				for bit := 0; bit <= 1; bit++ {
+					for _, x := range results[bit] {
+						buckets[bit][new(gobig.Int).Rsh(x, uint(maxBits-2)).Int64()] = true
 					}
 				}
 			}
